@@ -170,11 +170,16 @@ def check(ctx):
     ctx.floor('A4', 45, 'graph walks')
     ctx.floor('A17', 3, 'pattern look-ups')
     ctx.floor('A5', 9, 'apply-shape clauses')
+    from ..rules import patterns as _pt
+    _pt.check_state_written_only_when_initialising(ctx)
+    ctx.floor('A13i', 8, 'writes of pattern-encoder state')
 
 
 from ..selftest import V  # noqa: E402
 
 VARIANTS = [
+    V('pattern-state-overwritten-by-later-pattern', 'optimization/assign_enc/patterns/patterns.py',
+      [("                if not _set_check('surjective', n_min_conn[0] == 1):\n                    return False\n                return True", "                if n_min_conn[0] == 1:\n                    self.surjective = True\n                return True")], key='A13i'),
     V('exclusion-followed-as-derivation', 'graph/traversal.py',
       [("if get_edge_type(out_edge) in (EdgeType.INCOMPATIBILITY, EdgeType.EXCLUDES):", "if get_edge_type(out_edge) == EdgeType.INCOMPATIBILITY:")],
       key='get_confirmed_edges_for_node'),
